@@ -132,6 +132,33 @@ def run(p, led, tier):
             else:
                 led.ok("C08-R1", key, where(M[mname], M[mname].node), f"{len(paths)} path(s); state writes {sorted(f'{a}→{b}' for a, b in edges) or 'none'}", nontrivial=len(paths) > 1 or bool(edges))
 
+    # exact threshold (integers): from CLOSED the breaker opens on this failure iff the count *after* it has reached the threshold
+    from ..fdai import LinInterp, Lin, entails
+
+    def drive_exact(o):
+        it, obj = h.build(o, "AND", True, False, "CLOSED", interp_cls=LinInterp)
+        n, t = Lin.sym("failures_so_far"), Lin.sym("threshold")
+        it.assume(n)
+        it.assume(t.add(Lin({}, 1), -1))
+        obj.fields["_failure_count"] = n
+        obj.fields["failure_threshold"] = t
+        it.call_fi(M["_record_failure"], [obj], {})
+        fin = sname(obj.fields["_circuit_state"])
+        after = n.add(Lin({}, 1))
+        if fin == "OPEN":
+            return ("OPEN", entails(it.facts, after.add(t, -1)))            # count after ≥ threshold
+        return (fin, entails(it.facts, t.add(after, -1).add(Lin({}, 1), -1)))   # count after ≤ threshold − 1
+    outs = [r for _, r in explore(drive_exact, max_paths=200)]
+    key = "_record_failure ▸ from CLOSED ▸ opens exactly when the count reaches the threshold"
+    early = [r for r in outs if r[0] == "OPEN" and not r[1]]
+    late = [r for r in outs if r[0] != "OPEN" and not r[1]]
+    if early or late:
+        led.fail("C08-R1", key, where(M["_record_failure"], M["_record_failure"].node),
+                 ("the breaker can open before the failure threshold has been reached" if early else "the breaker can stay closed although the failure count has reached the threshold (it opens one or more failures late)"),
+                 witness="failure_threshold=2: two consecutive executor failures leave the breaker CLOSED" if late else None)
+    else:
+        led.ok("C08-R1", key, where(M["_record_failure"], M["_record_failure"].node), f"{len(outs)} symbolic path(s) over integer count n and threshold t: OPEN ⇔ n + 1 ≥ t")
+
     # direction of the recovery-timeout comparison
     cc = M["_check_circuit"]
     cmps = [n for n in walk_no_nested(cc.node) if isinstance(n, ast.Compare) and "recovery_timeout" in src(n)]
